@@ -5,7 +5,7 @@
    connection transports' bookkeeping. *)
 From FMP Require Import Base.Bytes Base.Lts Model.Connection Model.ConnProps Model.ConnCfg Model.CTransport
      Proofs.ConnProofs Proofs.ConnCfgProofs Proofs.CTransportProofs.
-From FMP Require Import Model.Paths Proofs.PathProofs.
+From FMP Require Import Model.Paths Proofs.PathsC14.
 From FMP Require Import Proofs.ConnProgress.
 Open Scope Z_scope.
 
